@@ -217,6 +217,58 @@ fn value_of(p: &Params, v: u32, k: u32) -> Vec<u8> {
     out
 }
 
+/// Besides bucket "d", which every version rewrites completely, bucket "s" is rewritten only by
+/// every second version: its pages belong to several consecutive snapshots and are freed by a
+/// commit that is not the successor of the one that wrote them.
+const SLOW_EVERY: u32 = 2;
+
+fn slow_version(v: u32) -> u32 {
+    v - v % SLOW_EVERY
+}
+
+fn slow_key(k: u32) -> Vec<u8> {
+    format!("slow{:04}", k).into_bytes()
+}
+
+fn write_slow(tx: &jammdb::Tx, p: &Params, v: u32) -> Result<(), String> {
+    if v % SLOW_EVERY != 0 {
+        return Ok(());
+    }
+    let b = tx.get_or_create_bucket("s").map_err(|e| format!("bucket s: {}", e))?;
+    for k in 0..p.keys {
+        b.put(slow_key(k), value_of(p, v, 5000 + k)).map_err(|e| format!("put: {}", e))?;
+    }
+    Ok(())
+}
+
+fn check_slow(tx: &jammdb::Tx, p: &Params, v: u32) -> Result<(), String> {
+    let b = tx.get_bucket("s").map_err(|e| format!("get_bucket(s): {}", e))?;
+    let want = slow_version(v);
+    let mut n = 0;
+    for d in b.cursor() {
+        match d {
+            Data::KeyValue(kv) => {
+                if n >= p.keys || kv.key() != slow_key(n).as_slice() {
+                    return Err(format!("bucket s of version {} lists an unexpected key {:?}", v, String::from_utf8_lossy(kv.key())));
+                }
+                if kv.value() != value_of(p, want, 5000 + n).as_slice() {
+                    let got = if kv.value().len() >= 4 { u32::from_be_bytes(kv.value()[0..4].try_into().unwrap()) } else { u32::MAX };
+                    return Err(format!("one transaction sees version {} in bucket d but bucket s as of version {} (expected {})", v, got, want));
+                }
+                n += 1;
+            }
+            Data::Bucket(_) => return Err("unexpected bucket in s".into()),
+        }
+        if n > 10_000 {
+            return Err("cursor does not terminate".into());
+        }
+    }
+    if n != p.keys {
+        return Err(format!("bucket s of version {} has {} keys instead of {}", v, n, p.keys));
+    }
+    Ok(())
+}
+
 fn write_version(db: &DB, p: &Params, v: u32) -> Result<(), String> {
     let tx = db.tx(true).map_err(|e| format!("tx(true): {}", e))?;
     {
@@ -233,6 +285,7 @@ fn write_version(db: &DB, p: &Params, v: u32) -> Result<(), String> {
             b.put(key_of(k), value_of(p, v, k)).map_err(|e| format!("put: {}", e))?;
         }
     }
+    write_slow(&tx, p, v)?;
     tx.commit().map_err(|e| format!("commit: {}", e))
 }
 
@@ -262,6 +315,7 @@ fn write_next_version(db: &DB, p: &Params) -> Result<u32, String> {
             b.put(key_of(k), value_of(p, v, k)).map_err(|e| format!("put: {}", e))?;
         }
     }
+    write_slow(&tx, p, v)?;
     tx.commit().map_err(|e| format!("commit: {}", e))?;
     Ok(v)
 }
@@ -314,6 +368,7 @@ fn read_version(tx: &jammdb::Tx, p: &Params) -> Result<u32, String> {
     if seen != want {
         return Err(format!("version {} shows keys {:?} instead of {:?}", v, seen, want));
     }
+    check_slow(tx, p, v)?;
     Ok(v)
 }
 
